@@ -86,6 +86,8 @@ pub(crate) struct LiveEvents<'a> {
     synthesized_null_emitted: bool,
     /// Single-item lookahead buffer (peeked event not yet consumed).
     look: Option<Ev<'a>>,
+    /// Number of events handed out by `next` (tells whether a target read anything at all).
+    consumed: u64,
     /// For alias replay: a stack of injected buffers; we always read from the top first.
     inject: Vec<InjectFrame>,
     /// Recorded nodes of anchors (index = anchor_id) as `start..end` ranges of `rec_log`.
@@ -179,6 +181,7 @@ impl<'a> LiveEvents<'a> {
             parser: SaphyrParser::StreamParser(parser),
             input: None, // Reader-based input cannot support zero-copy borrowing
             look: None,
+            consumed: 0,
             inject: Vec::with_capacity(2),
             anchors: Vec::with_capacity(8),
             rec_log: Vec::new(),
@@ -227,6 +230,7 @@ impl<'a> LiveEvents<'a> {
             parser: SaphyrParser::StringParser(Parser::new_from_str(input)),
             input: Some(input),
             look: None,
+            consumed: 0,
             inject: Vec::with_capacity(2),
             anchors: Vec::with_capacity(8),
             rec_log: Vec::new(),
@@ -752,9 +756,14 @@ impl<'de> Events<'de> for LiveEvents<'de> {
 
         if let Some(ev) = self.look.take() {
             self.last_location = ev.location();
+            self.consumed += 1;
             return Ok(Some(ev));
         }
-        self.next_impl()
+        let ev = self.next_impl()?;
+        if ev.is_some() {
+            self.consumed += 1;
+        }
+        Ok(ev)
     }
     /// Peek at the next event without consuming it, filling the lookahead buffer if empty.
     fn peek(&mut self) -> Result<Option<&Ev<'de>>, Error> {
@@ -812,6 +821,11 @@ impl<'a> LiveEvents<'a> {
     ///
     /// Returns `true` if a new document was found, `false` if EOF was reached.
     /// Syntax errors during skipping cause the method to return `false` (EOF-like).
+    /// Number of events consumed so far.
+    pub(crate) fn consumed_events(&self) -> u64 {
+        self.consumed
+    }
+
     pub(crate) fn skip_to_next_document(&mut self) -> bool {
         // Clear any peeked event and injection state
         self.look = None;
